@@ -230,6 +230,20 @@ class RecFs(NativeFilestore):
             raise PermissionError(str(file))
         return super().write_data(file, data, offset)
 
+    # a rejecting filestore also refuses to create / truncate the destination file (read-only target):
+    # FILESTORE_REJECTION while the Metadata PDU is handled (_init_vfs_handling)
+    def create_file(self, file):
+        if self.reject_write:
+            self.rejected += 1
+            raise PermissionError(str(file))
+        return super().create_file(file)
+
+    def truncate_file(self, file):
+        if self.reject_write:
+            self.rejected += 1
+            raise PermissionError(str(file))
+        return super().truncate_file(file)
+
 
 class MemFs(VirtualFilestore):
     """Purely in-memory filestore: paths never exist on the host (C16)."""
@@ -266,6 +280,9 @@ class MemFs(VirtualFilestore):
         return self._k(path) in self.files or self._k(path) in self.dirs
 
     def truncate_file(self, file):
+        if self.reject_write:
+            self.rejected += 1
+            raise PermissionError(str(file))
         if self._k(file) not in self.files:
             raise FileNotFoundError(file)
         self.files[self._k(file)] = bytearray()
@@ -290,6 +307,9 @@ class MemFs(VirtualFilestore):
         d[offset:offset + len(data)] = data
 
     def create_file(self, file):
+        if self.reject_write:
+            self.rejected += 1
+            raise PermissionError(str(file))
         if self.file_exists(file):
             return FilestoreResponseStatusCode.CREATE_NOT_ALLOWED
         self.files[self._k(file)] = bytearray()
